@@ -113,7 +113,7 @@ class RpcServer(PduPeer):
 
     ``req`` has: opnum, stub (cleartext, auth padding removed), sealed (bool), auth_level,
     raw pdu dict.  knobs: header_sign (server supports it), sec_addr, pad_mode
-    ("min16" pads the sealed stub to 16, "none" sends pad 0 when already 4-aligned else to 4),
+    ("min16" pads the sealed stub to 16, "min4" to 4, "<n>" = min4 + 4n, "k:<K>" exactly K bytes),
     ack_token_empty_trailer (send an auth trailer with empty value on the last leg).
     """
 
@@ -267,11 +267,14 @@ class RpcServer(PduPeer):
             pad = -len(stub) % 16
         elif mode == "min4":
             pad = -len(stub) % 4
+        elif mode.startswith("k:"):  # exactly K padding bytes whatever the alignment (K % 4 != 0 is lenient-server territory)
+            pad = int(mode[2:])
         else:  # explicit extra padding that keeps 4-alignment: min4 + 4*k
             pad = (-len(stub) % 4) + 4 * int(mode)
             if pad > 255:
                 pad = -len(stub) % 4
-        body = stub + b"\x00" * pad
+        # padding octets are not required to be zero: a non-zero fill makes un-stripped padding observable
+        body = stub + bytes([self.knobs.get("pad_fill", 0xA5)]) * pad
         sig_len = st.acceptor.sig_size
         pdu = bytearray(rpce.build_response(body, ctx_id=ctx_id, call_id=call_id, alloc_hint=len(body),
                                             auth={"type": st.auth_type, "level": st.auth_level, "pad": pad, "ctx": st.auth_ctx,
